@@ -9,6 +9,7 @@ import SkNet.Lemmas.ModularityMetric
 import SkNet.Lemmas.ModularityComponents
 import SkNet.Lemmas.ModularityPre
 import SkNet.Lemmas.ModularityFitComp
+import SkNet.Lemmas.ModularityLeiden
 
 namespace SkNet.C06
 open SkNet SkNet.Modularity
@@ -194,6 +195,42 @@ theorem louvain_never_worse (kind : Kind) (res tolOpt tolAgg : Rat) (nAgg : Int)
   rw [h2]
   have : 0 ≤ out.increases.sum := list_sum_nonneg _ h3
   linarith
+
+/-- **leiden_never_worse.**  Whenever `Leiden.fit` returns — for every oracle of the random choices of the
+    refinement, any graph, kind, resolution, tolerances — the objective of the kind of the returned labels equals
+    that of the singletons plus the sum of the logged increases, each non-negative.  (The refined partition only
+    decides how the graph is aggregated; the labels returned are the coarse clusters of `optimize_core`.) -/
+theorem leiden_never_worse (kind : Kind) (res tolOpt tolAgg : Rat) (nAgg : Int) (nRow nCol nnz : Nat)
+    (B : Nat → Nat → Rat) (fb : Bool) (coreFuel : Nat) (rands : List (List Nat)) (out : FitOut)
+    (h : leidenFit kind res tolOpt tolAgg nAgg nRow nCol nnz B fb coreFuel rands = .ok (some out)) :
+    objective kind (kindAdj kind nRow nCol B fb).1 (kindAdj kind nRow nCol B fb).2 res (labOf out.labels)
+      = objective kind (kindAdj kind nRow nCol B fb).1 (kindAdj kind nRow nCol B fb).2 res (fun u => u)
+        + out.increases.sum ∧
+    (∀ x ∈ out.increases, 0 ≤ x) ∧
+    objective kind (kindAdj kind nRow nCol B fb).1 (kindAdj kind nRow nCol B fb).2 res (fun u => u)
+      ≤ objective kind (kindAdj kind nRow nCol B fb).1 (kindAdj kind nRow nCol B fb).2 res (labOf out.labels) := by
+  obtain ⟨-, h2, h3⟩ := leidenFit_spec kind res tolOpt tolAgg nAgg nRow nCol nnz B fb coreFuel rands out h
+  refine ⟨h2, h3, ?_⟩
+  rw [h2]
+  have : 0 ≤ out.increases.sum := list_sum_nonneg _ h3
+  linarith
+
+/-- the refinement kernel, for every oracle: the refined partition refines the clusters it is given, and is
+    reached by nodes joining the refined cluster of a stored neighbour with the node's own label -/
+theorem refine_refines (g : Graph Rat) (hcols : ∀ i, i < g.n → ∀ e ∈ g.row i, e.1 < g.n) (res : Rat)
+    (labels : List Nat) (fuel : Nat) (st : RSt Rat) (rands : List Nat) (hinv : RefInv g.n labels st.refined)
+    (refined' rest : List Nat) (h : refineCore g res labels fuel st rands = some (refined', rest)) :
+    RefInv g.n labels refined' ∧ JoinSteps g st.refined refined' :=
+  refineCore_spec g hcols res labels fuel st rands hinv refined' rest h
+
+/-- non-vacuity: the same two triangles through `Leiden.fit` (oracle `[[1,2,3,4,5,6,7,8,9,10,11,12]]`) -/
+example :
+    (leidenFit .dugue 1 0 0 (-1) 6 6 14
+      (fun i j => if (i, j) ∈ [(0,1),(1,0),(0,2),(2,0),(1,2),(2,1),(3,4),(4,3),(3,5),(5,3),(4,5),(5,4),(2,3),(3,2)]
+        then 1 else 0) false 100 [[1,2,3,4,5,6,7,8,9,10,11,12], [1,2,3]]).toOption.join.map
+          (fun o => (o.labels, o.increases))
+      = some ([0, 0, 0, 1, 1, 1], [26/49, 0]) := by
+  decide +kernel
 
 /-- **clusters_within_components (Louvain.fit).**  Whenever `Louvain.fit` returns, two nodes with the same label
     are joined by a chain of non-zero weights of the matrix the kind works on (the input matrix, or its block
